@@ -379,6 +379,12 @@ func genC05(t *rapid.T) c05Case {
 				bad = badLiteral{Text: "stray_variable_9", Why: "a variable next to other values in an ASCII item"}
 				labels["bad:stray-variable-in-ascii-item"] = true
 			}
+			if kind != model.A && rapid.IntRange(0, 7).Draw(t, "repeatedVariable") == 7 {
+				// the same variable twice in one item (for a list: two item variables of one name): every name of a message is
+				// unique, nothing written may be replaced by a default or dropped silently
+				bad = badLiteral{Text: "dup_var_7 dup_var_7", Why: "the same variable twice in one item"}
+				labels["bad:repeated-variable-in-one-item"] = true
+			}
 			nt := append([]model.Tok(nil), toks[mi][:at]...)
 			nt = append(nt, model.Tok{Text: bad.Text, Kind: "num"})
 			nt = append(nt, toks[mi][at:]...)
